@@ -69,6 +69,8 @@ func genHpackTables(repo string) (string, error) {
 //	h2_cont_advance             mhttp2.go readMetaFrame: the recursive ReadFrame call reads at `off+msize` (true) or at `off` (false)
 //	h2_client_settings_wakes    mhttp2.go MClientConn.processSettings: contains a call cc.cond.Broadcast()
 //	h2_write_chunk              mhttp2.go MFramer.writeData: const maxFrameSize
+//	h2_stream_err_drains        mhttp2.go MFramer.ReadFrame: a StreamError path drains the offending frame (data.Drain inside `if _, ok := err.(StreamError)`)
+//	h2_dispatch_continues       stream/http2/stream.go Dispatch (server and client): a StreamError does not leave the decode loop
 //	h2_hpack_multi_update       hpack.go Decoder.Write: `d.firstField = false` in the parse loop is guarded by `if !sizeUpdate` (true) or unconditional (false)
 func genH2Src(repo string) (string, error) {
 	var b strings.Builder
@@ -192,6 +194,99 @@ func genH2Src(repo string) (string, error) {
 		chunk = "16384"
 	}
 	fmt.Fprintf(&b, "Definition h2_write_chunk : Z := %s%%Z.\n", chunk)
+	// --- ReadFrame: StreamError branches that drain
+	drains := 0
+	nested := false
+	isStreamErrIf := func(is *ast.IfStmt) bool {
+		found := false
+		ast.Inspect(is, func(n ast.Node) bool {
+			if ta, isTa := n.(*ast.TypeAssertExpr); isTa {
+				if id, isId := ta.Type.(*ast.Ident); isId && id.Name == "StreamError" {
+					found = true
+				}
+				if sel, isSel := ta.Type.(*ast.SelectorExpr); isSel && sel.Sel.Name == "StreamError" {
+					found = true
+				}
+			}
+			return true
+		})
+		return found && is.Init != nil
+	}
+	if fd := FindFunc(mf, "MFramer", "ReadFrame"); fd != nil {
+		ast.Inspect(fd.Body, func(n ast.Node) bool {
+			is, isIf := n.(*ast.IfStmt)
+			if !isIf || !isStreamErrIf(is) {
+				return true
+			}
+			ast.Inspect(is.Body, func(m ast.Node) bool {
+				if c, isCall := m.(*ast.CallExpr); isCall {
+					if sel, isSel := c.Fun.(*ast.SelectorExpr); isSel && sel.Sel.Name == "Drain" {
+						drains++
+					}
+				}
+				return true
+			})
+			return false
+		})
+	}
+	if fd := FindFunc(mf, "MFramer", "readMetaFrame"); fd != nil {
+		ast.Inspect(fd.Body, func(n ast.Node) bool {
+			is, isIf := n.(*ast.IfStmt)
+			if !isIf || !isStreamErrIf(is) {
+				return true
+			}
+			ast.Inspect(is.Body, func(m ast.Node) bool {
+				if c, isCall := m.(*ast.CallExpr); isCall {
+					if id, isId := c.Fun.(*ast.Ident); isId && id.Name == "ConnectionError" {
+						nested = true
+					}
+				}
+				return true
+			})
+			return false
+		})
+	}
+	switch {
+	case drains == 2 && nested:
+		b.WriteString("Definition h2_stream_err_drains := true.\n")
+	case drains == 0 && !nested:
+		b.WriteString("Definition h2_stream_err_drains := false.\n")
+	default:
+		ok = false
+		b.WriteString("Definition h2_stream_err_drains := false.\n")
+	}
+	// --- Dispatch loops
+	_, sf, err := ParseGoFile(repo, "pkg/stream/http2/stream.go")
+	if err != nil {
+		return "", err
+	}
+	conts, disp := 0, 0
+	for _, recv := range []string{"serverStreamConnection", "clientStreamConnection"} {
+		if fd := FindFunc(sf, recv, "Dispatch"); fd != nil {
+			disp++
+			ast.Inspect(fd.Body, func(n ast.Node) bool {
+				is, isIf := n.(*ast.IfStmt)
+				if !isIf || !isStreamErrIf(is) {
+					return true
+				}
+				for _, st := range is.Body.List {
+					if br, isBr := st.(*ast.BranchStmt); isBr && br.Tok == token.CONTINUE {
+						conts++
+					}
+				}
+				return false
+			})
+		}
+	}
+	switch {
+	case disp == 2 && conts == 2:
+		b.WriteString("Definition h2_dispatch_continues := true.\n")
+	case disp == 2 && conts == 0:
+		b.WriteString("Definition h2_dispatch_continues := false.\n")
+	default:
+		ok = false
+		b.WriteString("Definition h2_dispatch_continues := false.\n")
+	}
 	// --- hpack Decoder.Write
 	_, hf, err := ParseGoFile(repo, "pkg/module/http2/hpack/hpack.go")
 	if err != nil {
